@@ -2339,7 +2339,10 @@ pub fn run_case(plan: &CasePlan, seed: u64, idx: u64) -> CaseResult {
     acc.d.u64(p.draws);
     let mut violations = vec![];
     for (fw, f, hist) in std::mem::take(&mut acc.pending) {
-        let (mw, mf) = if fw.env_flip.is_empty() && !fw.plain_build { minimise(&fw, &f, &hist) } else { (fw.clone(), f.clone()) };
+        // (no minimisation either when the scheduler had to break a deadlock between a lock of the code
+        // under test and the baton: every re-run of such a world costs seconds of real time)
+        let takeovers = crate::sched::TAKEOVERS.load(std::sync::atomic::Ordering::Relaxed) > 0;
+        let (mw, mf) = if fw.env_flip.is_empty() && !fw.plain_build && !(takeovers && fw.s5.is_some()) { minimise(&fw, &f, &hist) } else { (fw.clone(), f.clone()) };
         violations.push(Violation {
             property: "C11".into(),
             class: mf.class.clone(),
